@@ -190,6 +190,11 @@ func runC13(e *Env) error {
 		}
 		cD := &Case{Templates: tpls, Main: "main", Ctx: ctx, FailAt: -1}
 		cH := &Case{Templates: tplsH, Main: "main", Ctx: ctx, FailAt: -1}
+		if e.Rng.Intn(2) == 0 {
+			// the template parsed just before ends in a trimming delimiter: nothing of it may carry over
+			cD.Prime = pick(e.Rng, []string{"x {{ 1 -}}", "{% set z = 1 -%}", "a {#- c -#}", "{%- set q = 2 -%}", "{{- 1 -}}", "{% if 1 -%}", "{{ 1 -}"})
+			r.Hit("primed-with-trailing-trim")
+		}
 		iD, _, _, err := compareCase(e, cD, "render-model-c13", "correspondence render (Lean pipeline incl. applyWs/normalise vs real engine) on dashed templates")
 		if err != nil {
 			return err
